@@ -281,6 +281,17 @@ class RC3(RCBase):
 
 
 RCS = {1: RC1, 2: RC2, 3: RC3}
+
+
+class CopyOnly(copyable.Copyable):
+    """a class that is only ever SENT by value (Copyable, no RemoteCopy side): never receivable"""
+    CLS = 0
+
+    def __init__(self):
+        RCBase.LOG.append(("inst", self.CLS))
+
+
+CLASS_NAMES = ["app.c1", "app.c2", "app.t1", "app.t2"]   # copytype / typeToCopy names of classes DEFINED during a history
 KINDS = {1: P1, 2: P2, 3: P1, 4: P2, 5: I1, 6: I1, 9: P1, 10: P1b, 11: I2, 12: P1b}   # world ids of Referenceables
 DECLARABLE = [1, 2, 3, 4, 9, 10, 12]                    # instances of classes without a RemoteInterface: may declare their own
 CALLABLES = {7: (1, "cb_a"), 8: (2, "cb_b")}             # world ids of bound methods: (owner, method)
@@ -355,6 +366,8 @@ class System:
         self.wid_of = {id(o): w for w, o in self.objs.items()}
         self.cb_wid = {v: k for k, v in CALLABLES.items()}
         self.added_copy = []
+        self.nclasses = 0
+        self.defined = []
         self.br = {}
         self.rref = {}
         self.cnt = {}
@@ -488,6 +501,39 @@ class System:
         except AssertionError:
             pass
 
+    def define_class(self, ct, ttc, cls, bases, which):
+        """the application DEFINES a class (a `class` statement, i.e. the metaclass RemoteCopyClass.__init__ runs for RemoteCopy
+        subclasses): ct = ["absent"] | ["none"] | ["str", s] is what the body says about copytype, ttc its typeToCopy (or None),
+        bases "rc" (RemoteCopy subclass) | "both" (Copyable and RemoteCopy) | "copyable" (Copyable only), which = None (no
+        copyableRegistry attribute) or the index of a private registry.  A definition that raises defines nothing."""
+        d = {}
+        if ct[0] == "none":
+            d["copytype"] = None
+        elif ct[0] == "str":
+            d["copytype"] = ct[1]
+            self.added_copy.append(ct[1])
+        if ttc is not None:
+            d["typeToCopy"] = ttc
+            self.added_copy.append(ttc)
+        if which is not None:
+            d["copyableRegistry"] = self.priv[which]
+        if bases == "rc":
+            bs = (RCS[cls],)
+        elif bases == "both":
+            bs = (copyable.Copyable, RCS[cls])
+        else:
+            bs = (CopyOnly,)
+            d["CLS"] = cls
+        self.nclasses += 1
+        name = "AppClass%d" % self.nclasses
+        self.added_copy += [name, __name__ + "." + name]
+        try:
+            k = type(name, bs, d)
+            k.__module__ = __name__
+            self.defined.append(k)
+        except Exception:        # RuntimeError (no copytype), AssertionError (name taken), ...: a failed definition defines nothing
+            pass
+
     # ---- snapshots
     def exports(self, c):
         return {clid: (self.wid_of.get(id(t.obj), "?"), t.refcount) for clid, t in self.br[c].myReferenceByCLID.items()}
@@ -542,6 +588,8 @@ class System:
                         pass
                 elif kind == "RegisterCopyPriv":
                     self.register_private(ev[1], ev[2], ev[3], ev[4])
+                elif kind == "DefineClass":
+                    self.define_class(ev[1], ev[2], ev[3], ev[4], ev[5])
                 elif kind == "Declare":
                     self.declare(ev[1], ev[2], ev[3])
                 elif kind == "Serve":
